@@ -99,6 +99,10 @@ package push
 //@   flag typeassert=panic
 //@   havoc
 //@   requires b != nil
+//@   requires [registered_heartbeat_signals_are_open] forall(k, ghost.cm_has[arr(b.signals)][k] ==>
+//@       ival(ghost.cm_val[arr(b.signals)][k]) != 0 && ghost.chanclosed[ival(ghost.cm_val[arr(b.signals)][k])] == 0)
+//@   stable b.responders, b.signals
 //@   modifies ghost.*
+//@   loop 1 invariant ghost.chanrecv[responder] >= 0
 //@   ensures [a_poll_that_gives_up_does_not_leave_its_responder_registered] ghost.chanrecv[responder] == 0 ==>
 //@       !(ghost.cm_has[arr(b.responders)][str(id)] && ival(ghost.cm_val[arr(b.responders)][str(id)]) == responder)
